@@ -19,7 +19,7 @@ func init() {
 			return ps
 		}
 		x.Comment("(*Store).fsmSnapshot: in the `if dueNext.IsFull()` branch, wal-staging is removed (and a full snapshot kept required) before the checkpoint")
-		var ok1, f1 bool
+		var ok1, f1, alwaysOK, alwaysFound bool
 		if fd := x.Func("store", "Store", "fsmSnapshot"); fd != nil {
 			ast.Inspect(fd.Body, func(n ast.Node) bool {
 				is, isIf := n.(*ast.IfStmt)
@@ -33,6 +33,18 @@ func init() {
 				if len(rm) == 1 && len(ck) >= 1 && rm[0] < ck[0].Pos() && len(sd) == 1 && x.Src(sd[0].Args[0]) == "snapshot.Full" && sd[0].Pos() < rm[0] {
 					ok1 = true
 				}
+				// both must be unconditional: `if err := <call>; err != nil {…}` statements directly in the branch
+				uncond := 0
+				for _, st := range is.Body.List {
+					if ifs, isIf := st.(*ast.IfStmt); isIf && ifs.Init != nil {
+						init := x.Src(ifs.Init)
+						if init == "err := s.snapshotStore.SetDueNext(snapshot.Full)" || init == "err := os.RemoveAll(s.walStagingDir)" {
+							uncond++
+						}
+					}
+				}
+				alwaysOK = ok1 && uncond == 2
+				alwaysFound = true
 				// the incremental branch must not remove it
 				if is.Else != nil && len(removesStaging(is.Else)) > 0 {
 					ok1 = false
@@ -41,6 +53,8 @@ func init() {
 			})
 		}
 		x.DefOptBool("fullSnapshotDropsStaging", ok1, f1)
+		x.Comment("… and both the SetDueNext(Full) and the removal are unconditional statements of that branch")
+		x.DefOptBool("fullSnapshotAlwaysRequiresFull", alwaysOK, alwaysFound)
 
 		x.Comment("(*Store).fsmRestore: wal-staging is removed after the database swap")
 		var ok2, f2 bool
